@@ -1,4 +1,4 @@
-package checks
+package c16
 
 import (
 	"bytes"
